@@ -583,7 +583,7 @@ func (g *Gen) evalIndex(env *Env, x *EIndex) Val {
 		switch bt := base.T.Underlying().(type) {
 		case *types.Slice:
 			h := g.arrHeap(bt.Elem())
-			return Val{T: bt.Elem(), S: fmt.Sprintf("(select (select %s (sl.ref %s)) %s)", g.heapGet(env.st, h), base.S, g.add("(sl.off "+base.S+")", g.asIdx(idx)))}
+			return Val{T: bt.Elem(), S: g.slElem(bt.Elem(), fmt.Sprintf("(select %s (sl.ref %s))", g.heapGet(env.st, h), base.S), "(sl.off "+base.S+")", g.asIdx(idx))}
 		case *types.Map:
 			idx, _ = g.unifyTo(idx, bt.Key())
 			dom, val := g.mapHeaps(bt)
